@@ -30,7 +30,8 @@ def scen_check(module, level, rule, min_obs_quick=None, min_obs_thorough=None, c
             replay_cases = None
             if replay_doc is not None:
                 replay_cases = [c for c in replay_doc["cases"]]
-                if replay_doc.get("module") and replay_doc["module"] != mod:
+                rmod = replay_doc.get("module") or (replay_cases[0].get("module") if replay_cases else None)
+                if rmod and rmod != mod:
                     continue
             t, v = core.run_engine(mod, prop, tier, seed, scen, vchild, replay_cases, opts=mopts)
             if mopts.get("prefix"):
@@ -50,7 +51,13 @@ def scen_check(module, level, rule, min_obs_quick=None, min_obs_thorough=None, c
                         total["obs"].setdefault(k, set()).update(val)
                     else:
                         total["obs"][k] = total["obs"].get(k, 0) + val
-        if extra is not None and not replay:
+        if total is None:
+            # replay of a violation raised by the extra pass (real-time / stress harness): there is no
+            # case script to re-run, the pass is repeated as a whole with the recorded seed
+            total = {"evaluations": 0, "nontrivial_sigs": set(), "obs": {}, "inconclusive": 0, "samples": []}
+            if replay_doc is not None and replay_doc.get("cases"):
+                seed = replay_doc["cases"][0].get("seed", seed)
+        if extra is not None and (not replay or total["evaluations"] == 0):
             ev, eo, en = extra(prop, tier, seed)
             viols.extend(ev)
             total["evaluations"] += en
